@@ -45,10 +45,13 @@ def _mk_time(name):
         w = simmp.CURRENT[0]
         if w is None:
             return real(*a)
-        t = 1.7e9 + w.now
+        # strictly increasing: no two clock reads anywhere in a run return the same value (as on a real machine
+        # at nanosecond resolution), while whole seconds only advance with simulated work
+        w.clock_reads += 1
+        ns = int((1.7e9 + w.now) * 1e9) + 137 * w.clock_reads
         if name.endswith('_ns'):
-            return int(t * 1e9)
-        return t
+            return ns
+        return ns / 1e9
     fake.__name__ = name
     fake._simverif_seam = True
     return real, fake
